@@ -116,8 +116,8 @@ Proof.
   destruct Ha as [Ha _]. destruct (Ha Hs) as [C1 M1]. specialize (Hb s1 C1). destruct (b s1) as [s2 o2]. cbn [fst snd] in *.
   destruct Hb as [C2 M2]. split; auto. rewrite m3_app, M1, M2. reflexivity.
 Qed.
-Lemma okB_emits : okB (emit (OGauge (-1)) ;; emit OLog ;; emit ODestroy).
-Proof. intros s Hs. cbn. auto. Qed.
+Lemma okB_emits f : (forall s, cleaned (f s) = cleaned s) -> okB (emit (OGauge (-1)) ;; emit OLog ;; emit ODestroy ;; upd f).
+Proof. intros Hf s Hs. cbn. rewrite Hf. auto. Qed.
 
 Lemma seq_upd_run f (b : A) s : (upd f ;; b) s = (fst (b (f s)), snd (b (f s))).
 Proof. unfold aseq, upd. destruct (b (f s)). reflexivity. Qed.
@@ -127,8 +127,9 @@ Proof.
   intros s. unfold clean_stream, ite. destruct (cleaned s) eqn:E; [cbn [fst snd ret]; apply R_refl|].
   assert (Hrest : okB (when (fun s0 => has_upreq s0 && negb (process_done s0) && negb (c_oneway c))
                          (upd (fun s0 => s0 <| process_done := true |>) ;; upreq_reset_stream) ;;
-                       clean_up src c ;; emit (OGauge (-1)) ;; emit OLog ;; emit ODestroy)).
-  { apply okB_seq; [pose proof ok_upreq_reset_stream; ok_auto|]. apply okB_seq; [apply ok_clean_up|]. apply okB_emits. }
+                       clean_up src c ;; emit (OGauge (-1)) ;; emit OLog ;; emit ODestroy ;;
+                       upd (fun s0 => s0 <| gave := reuse s0 && negb (up_reset s0) && negb (down_reset s0) |>))).
+  { apply okB_seq; [pose proof ok_upreq_reset_stream; ok_auto|]. apply okB_seq; [apply ok_clean_up|]. apply okB_emits. intros; reflexivity. }
   rewrite seq_upd_run. cbn [fst snd].
   assert (Hc : cleaned (s <| cleaned := true |>) = true) by reflexivity.
   destruct (Hrest (s <| cleaned := true |>) Hc) as [C M].
@@ -141,7 +142,7 @@ Lemma ok_on_up_reset why : okA (on_up_reset why). Proof. unfold on_up_reset. ok_
 Lemma ok_on_down_reset why : okA (on_down_reset why). Proof. unfold on_down_reset. ok_auto. Qed.
 Lemma ok_ds_reset_stream : okA (ds_reset_stream c).
 Proof. unfold ds_reset_stream. pose proof (ok_on_down_reset RsLocalReset). ok_auto. Qed.
-Lemma ok_setup_retry_act e : okA (setup_retry_act e).
+Lemma ok_setup_retry_act e : okA (setup_retry_act src e).
 Proof. unfold setup_retry_act. pose proof ok_upreq_reset_stream. ok_auto. Qed.
 
 Lemma R_of_eq s s' o : cleaned s' = cleaned s -> m3 o = (0, 0, 0)%nat -> R s o s'.
@@ -171,9 +172,9 @@ Proof.
   destruct (negb (reason_eqb why RsGlobalTimeout) && negb (resp_started s) && match retry s with Some _ => true | None => false end).
   - pose proof (ok_rs_retry None why s) as H0. destruct (rs_retry src c None why s) as [[s1 o1] r]. cbn [fst snd] in H0.
     destruct r.
-    + assert (H1 : okA (setup_retry_act true ;; upd (fun s0 => s0 <| up_reset := false |>))).
+    + assert (H1 : okA (setup_retry_act src true ;; upd (fun s0 => s0 <| up_reset := false |>))).
       { pose proof (ok_setup_retry_act true). ok_auto. }
-      specialize (H1 s1). destruct ((setup_retry_act true ;; upd (fun s0 => s0 <| up_reset := false |>)) s1) as [s2 o2].
+      specialize (H1 s1). destruct ((setup_retry_act src true ;; upd (fun s0 => s0 <| up_reset := false |>)) s1) as [s2 o2].
       cbn [fst snd] in *. eapply R_trans; eauto.
     + specialize (Htail s1). match goal with |- context [let '(s2, o2) := ?t s1 in _] => destruct (t s1) as [s2 o2] end.
       cbn [fst snd] in *. eapply R_trans; eauto.
@@ -272,7 +273,7 @@ Proof.
   set (v := verdict_at (sf_verdicts f) (nth i (scalls s) 0%nat)).
   assert (H1 : okA (upd (fun s0 => s0 <| scalls := incr_nth (scalls s0) i |>) ;; emit (OFilterSend i v) ;;
                     match v with
-                    | VTerm => clean_stream src c
+                    | VTerm => upd (fun s0 => s0 <| reuse := false |>) ;; clean_stream src c
                     | VHijack => hijack src (sf_code f) false
                     | VDirect => direct_response (sf_code f)
                     | _ => ret
@@ -360,7 +361,7 @@ Proof.
   destruct (retry s); [|apply Htail].
   pose proof (ok_rs_retry (Some (r_code r)) RsEmpty s) as H0. destruct (rs_retry src c (Some (r_code r)) RsEmpty s) as [[s1 o1] rs].
   cbn [fst snd] in H0. destruct rs.
-  - pose proof (ok_setup_retry_act e s1) as H1. destruct (setup_retry_act e s1) as [s2 o2]. cbn [fst snd] in *. eapply R_trans; eauto.
+  - pose proof (ok_setup_retry_act e s1) as H1. destruct (setup_retry_act src e s1) as [s2 o2]. cbn [fst snd] in *. eapply R_trans; eauto.
   - assert (H1 : okA (rs_reset src c ;; upd (fun s0 => s0 <| resp_started := true |>) ;; (if e then recv_finished src c else ret) ;; down_append_headers src c e r)).
     { pose proof ok_rs_reset. ok_auto. }
     specialize (H1 s1). match goal with |- context [let '(s2, o2) := ?t s1 in _] => destruct (t s1) as [s2 o2] end.
@@ -439,27 +440,28 @@ Proof.
     destruct (process_done_b (s <| up_alive := false |>) || setup_retry (s <| up_alive := false |>)); [cbn; split; auto; tauto|].
     destruct (received (s <| up_alive := false |>)); cbn; split; auto; tauto.
   - destruct ((k =? cur s)%nat && up_sender s && up_alive s); [|cbn; split; auto; tauto].
-    destruct (Hu r (s <| up_alive := false |>)) as [H1 H2]. rewrite H1, H2. cbn. split; auto; tauto.
+    destruct (Hu r (s <| up_alive := false |> <| abandoned := true |>)) as [H1 H2]. rewrite H1, H2. cbn. split; auto; tauto.
   - destruct (try_armed s) as [k'|]; [|cbn; split; auto; tauto].
     destruct (k =? k')%nat; [|cbn; split; auto; tauto].
-    destruct (cleaned (s <| try_armed := None |>)) eqn:E1; [cbn; split; auto; tauto|].
-    destruct (received (s <| try_armed := None |>)); [cbn; split; auto; tauto|].
-    destruct (resp_started (s <| try_armed := None |> <| received := true |>)); [cbn; split; auto; tauto|].
-    unfold aseq. set (s2 := s <| try_armed := None |> <| received := true |>).
+    destruct (cleaned (s <| try_armed := None |> <| reuse := false |>)) eqn:E1; [cbn; split; auto; tauto|].
+    destruct (received (s <| try_armed := None |> <| reuse := false |>)); [cbn; split; auto; tauto|].
+    destruct (resp_started (s <| try_armed := None |> <| reuse := false |> <| received := true |>)); [cbn; split; auto; tauto|].
+    unfold aseq. set (s2 := s <| try_armed := None |> <| reuse := false |> <| received := true |>).
     destruct (Hx s2) as [H1 H2]. destruct (X s2) as [s3 o3]. cbn [fst snd] in *.
     destruct (Hu RsPerTryTimeout s3) as [H3 H4]. destruct (on_up_reset RsPerTryTimeout s3) as [s4 o4]. cbn [fst snd] in *.
     subst o4. rewrite app_nil_r. split; auto. rewrite H3, H1. reflexivity.
   - destruct (global_armed s); [|cbn; split; auto; tauto].
-    destruct (cleaned (s <| global_armed := false |>)) eqn:E1; [cbn; split; auto; tauto|].
-    destruct (received (s <| global_armed := false |>)); [cbn; split; auto; tauto|].
-    destruct (has_upreq (s <| global_armed := false |> <| received := true |>)); [|cbn; split; auto; tauto].
-    unfold aseq. set (s2 := s <| global_armed := false |> <| received := true |>).
+    destruct (cleaned (s <| global_armed := false |> <| reuse := false |>)) eqn:E1; [cbn; split; auto; tauto|].
+    destruct (received (s <| global_armed := false |> <| reuse := false |>)); [cbn; split; auto; tauto|].
+    destruct (has_upreq (s <| global_armed := false |> <| reuse := false |> <| received := true |>)); [|cbn; split; auto; tauto].
+    unfold aseq. set (s2 := s <| global_armed := false |> <| reuse := false |> <| received := true |>).
     destruct (Hx s2) as [H1 H2]. destruct (X s2) as [s3 o3]. cbn [fst snd] in *.
     destruct (Hu RsGlobalTimeout s3) as [H3 H4]. destruct (on_up_reset RsGlobalTimeout s3) as [s4 o4]. cbn [fst snd] in *.
     subst o4. rewrite app_nil_r. split; auto. rewrite H3, H1. reflexivity.
   - unfold on_down_reset, ite, ret, upd. destruct (down_reset s); cbn; split; auto; tauto.
-  - destruct (rsp s); [cbn; split; auto; tauto|]. destruct (cleaned s) eqn:E; [cbn; split; auto; tauto|].
-    destruct (received s); cbn; split; auto; tauto.
+  - cbn zeta. destruct (rsp (s <| reuse := false |>)); [cbn; split; auto; tauto|].
+    destruct (cleaned (s <| reuse := false |>)) eqn:E; [cbn; split; auto; tauto|].
+    destruct (received (s <| reuse := false |>)); cbn; split; auto; tauto.
   - destruct (sleeping s); cbn; split; auto; tauto.
 Qed.
 
